@@ -7,6 +7,7 @@ mod bspline;
 mod curvemodel;
 mod calmodel;
 mod progs;
+mod largeops;
 mod props;
 
 use common::*;
